@@ -50,6 +50,14 @@ class Run:
             self._envs = path
         return self._envs
 
+    def pools_file(self):
+        """the environment-object pools of the API histories (Gen_Api), emitted by TLC for the harness"""
+        if not getattr(self, "_pools", None):
+            path, _ = self.generate("Gen_Api", "Gen_Api.cfg", mode="pools", size=0, name="apipools")
+            self.cases -= 1
+            self._pools = path
+        return self._pools
+
     # ------------------------------------------------------------ TLC generator (Mode A + B)
     def generate(self, module, cfg, mode="", size=0, name=None, timeout=1800, workers=None, idbase=0, heap="6g"):
         """runs a Gen_* root: invariants = Mode A on the specification, states = cases.
@@ -113,7 +121,10 @@ class Run:
         if jobs:
             args += ["-j", str(jobs)]
         t0 = time.time()
-        _, err = vf.harness(self.hbin(race), args, env=dict(VERIF_ENVS=self.envs_file()))
+        henv = dict(VERIF_ENVS=self.envs_file())
+        if family == "api":
+            henv["VERIF_POOLS"] = self.pools_file()
+        _, err = vf.harness(self.hbin(race), args, env=henv)
         n = vf.count_lines(out)
         vf.log("replayed %s: %d observations (%.1fs) %s" % (family, n, time.time() - t0, err.strip().splitlines()[-1] if err.strip() else ""))
         return out
@@ -152,7 +163,7 @@ class Run:
             vfile = path + ".verdict.ndjson"
             if os.path.exists(vfile):
                 os.remove(vfile)
-            w = vf.NCPU if len(shards) == 1 else max(2, vf.NCPU // parallel)
+            w = vf.NCPU if len(shards) == 1 else max(1, vf.NCPU // parallel)
             r = vf.tlc(module, cfg, dict(P_OBS=path, P_VERDICT=vfile, P_CHUNKS=ch, P_MODE=mode, P_SIZE=size),
                        timeout=timeout, heap=heap, workers=w)
             if r["rc"] != 0:
